@@ -302,7 +302,7 @@ func (s *c39State) syncPools() {
 func (s *c39State) syncBlocks() {
 	var objs []any
 	for b := range s.blocks {
-		objs = append(objs, &v3.IPAMBlock{ObjectMeta: metav1.ObjectMeta{Name: strings.NewReplacer(".", "-", "/", "-").Replace(b)}, Spec: v3.IPAMBlockSpec{CIDR: b}})
+		objs = append(objs, &v3.IPAMBlock{ObjectMeta: metav1.ObjectMeta{Name: strings.NewReplacer(".", "-", "/", "-", ":", "-").Replace(b)}, Spec: v3.IPAMBlockSpec{CIDR: b}})
 	}
 	if err := s.blockIdx.Replace(objs, ""); err != nil {
 		panic(err)
@@ -800,7 +800,7 @@ func TestVerif_C39(t *testing.T) {
 			"(on whatever the caches hold, or preceded by a sync), replayed on a fresh controller; non-trivial = at least two pools with overlapping CIDRs exist")
 		c.Assume("API server model (trusted): optimistic concurrency on metadata.resourceVersion, /status subresource updates only status and main-resource updates never status (as the IPPool CRD declares), an object with deletionTimestamp disappears when its last finalizer goes; informer caches are snapshots of the truth at the time of the last sync event (pool and block caches independently)")
 		c.Assume("oracles (a) disjoint allocatable pools, (c) terminating pools keep masking and (d') finalizer on allocatable pools with blocks are evaluated after reconciles that started on fresh caches and returned no error; (b) no displacement of an established pool by a newcomer after every reconcile that started on a fresh pool cache; (d) no release of a formerly allocatable terminating pool with blocks whenever the block cache was fresh (stale-block-cache occurrences are only counted)")
-		c.Assume("IPv4 only; ReleasePoolAffinities is a stub (optionally failing); 'allocatable' is IPAM's reading (not deleting, not disabled, no Allocatable=False condition)")
+		c.Assume("IPv4 and IPv6 pools (v6 in its own small universe next to a v4 pool); ReleasePoolAffinities is a stub (optionally failing); 'allocatable' is IPAM's reading (not deleting, not disabled, no Allocatable=False condition)")
 		quick := &c39Universe{
 			Pools:  []c39PoolDef{{Name: "p24", CIDR: "10.0.0.0/24"}, {Name: "p25a", CIDR: "10.0.0.0/25"}, {Name: "p25b", CIDR: "10.0.0.128/25"}},
 			Blocks: []string{"10.0.0.0/26"},
@@ -821,8 +821,22 @@ func TestVerif_C39(t *testing.T) {
 		}
 		mid.FaultBudget = c.Pick(1, 2)
 		full.FaultBudget = 1
+		// block/pool geometry: a pool exactly ONE block wide (the block's CIDR is the pool's CIDR), the wider pool
+		// that covers it, a sibling pool with a narrower block; every relation of block width to pool width
+		// (narrower, equal, and - seen from the narrow pools - a block of the covering pool that is wider) occurs
+		edge := &c39Universe{
+			Pools:       []c39PoolDef{{Name: "p26", CIDR: "10.0.0.0/26"}, {Name: "p25", CIDR: "10.0.0.0/25"}, {Name: "p26b", CIDR: "10.0.0.64/26"}},
+			Blocks:      []string{"10.0.0.0/26", "10.0.0.64/27"},
+			FaultBudget: 1,
+		}
+		// the same in IPv6 next to IPv4 pools (the controller keeps one overlap trie per family)
+		v6 := &c39Universe{
+			Pools:       []c39PoolDef{{Name: "v122", CIDR: "fd00::/122"}, {Name: "v120", CIDR: "fd00::/120"}, {Name: "p26", CIDR: "10.0.0.0/26"}},
+			Blocks:      []string{"fd00::/122", "10.0.0.0/26"},
+			FaultBudget: 1,
+		}
 		if rf := c.ReplayFile(); rf != "" {
-			quick.FaultBudget, mid.FaultBudget, full.FaultBudget = 9, 9, 9
+			quick.FaultBudget, mid.FaultBudget, full.FaultBudget, edge.FaultBudget, v6.FaultBudget = 9, 9, 9, 9, 9
 			var d struct {
 				Spec    string
 				History []string
@@ -836,6 +850,10 @@ func TestVerif_C39(t *testing.T) {
 				u = full
 			} else if strings.HasPrefix(d.Spec, "ippool-mid") {
 				u = mid
+			} else if strings.HasPrefix(d.Spec, "ippool-edge") {
+				u = edge
+			} else if strings.HasPrefix(d.Spec, "ippool-v6") {
+				u = v6
 			}
 			fails, err := hbfs.Replay(c39Spec(c, u, d.Spec, 99, false, 1), d.History)
 			if err != nil {
@@ -854,6 +872,8 @@ func TestVerif_C39(t *testing.T) {
 		w := 6
 		hbfs.Explore(c, c39Spec(c, quick, "ippool-quick-graph", c.Pick(7, 9), false, w))
 		hbfs.Explore(c, c39Spec(c, mid, "ippool-mid-graph", c.Pick(6, 8), false, w))
+		hbfs.Explore(c, c39Spec(c, edge, "ippool-edge-graph", c.Pick(6, 8), false, w))
+		hbfs.Explore(c, c39Spec(c, v6, "ippool-v6-graph", c.Pick(6, 8), false, w))
 		hbfs.Explore(c, c39Spec(c, quick, "ippool-quick-tree", c.Pick(4, 5), true, w))
 		if c.Thorough() {
 			hbfs.Explore(c, c39Spec(c, full, "ippool-full-graph", 6, false, w))
